@@ -147,18 +147,15 @@ def lean_spec(sd):
             "],\n  topNode := %s }" % lean_opt_str(sd["topNode"]))
 
 
-def lean_ref(name, table):
-    """`None` = not set, a name the schema lacks = `some none`"""
-    if name is None:
-        return "none"
-    return "some (some %d)" % table[name] if name in table else "some none"
+def lean_ref(r):
+    """`None` = not set, `-1` = a name the schema lacks (`some none`), else the id"""
+    return "none" if r is None else "some none" if r < 0 else "some (some %d)" % r
 
 
 def lean_opt_attrs(attrs):
-    from .codec import jval
     if attrs is None:
         return "none"
-    return "some [" + ", ".join("(%s, %s)" % (lean_str(k), lean_str(jval(v))) for k, v in attrs.items()) + "]"
+    return "some [" + ", ".join("(%s, %s)" % (lean_str(k), lean_str(v)) for k, v in attrs) + "]"
 
 
 def lean_ws(pw):
@@ -166,27 +163,33 @@ def lean_ws(pw):
 
 
 def lean_parser(info, ident):
-    """`DOMParser.from_schema(schema)` as a `PM.DomWalk.Parser` literal (the encoding of harness/props/c19.py: rules),
-    or None when a rule has a `clear_mark` predicate (a Python closure: not data)"""
+    """`DOMParser.from_schema(schema)` as a `PM.DomWalk.Parser` literal: the rules in the encoding the C19 tie sends to
+    the model driver (`harness/props/c19.py: DomOracle.rules()`, `groups`, `wsPre` of its `domParse` request), rendered as
+    Lean data.  None when a rule has a `clear_mark` predicate (a Python closure: not data) or the oracle does not
+    support the parser."""
     from prosemirror.model.from_dom import DOMParser
+
+    from .props import c19
     parser = DOMParser.from_schema(info.schema)
     if any(r.clear_mark is not None for r in parser._styles):
         return None
+    oracle = c19.DomOracle(info, parser)
+    if oracle.unsupported:
+        return None
+    jtags, jstyles = oracle.rules()
     tags = []
-    for r in parser._tags:
+    for r in jtags:
         tags.append("    { context := %s.toList, node := %s, mark := %s, attrs := %s, ignore := %s, skip := %s,\n"
                     "      closeParent := %s, consuming := %s, preserveWs := %s, listTag := %s }" % (
-                        lean_str(r.context or ""), lean_ref(r.node, info.nid), lean_ref(r.mark, info.mid),
-                        "none" if r.get_attrs is not None else lean_opt_attrs(r.attrs), lean_bool(r.ignore), lean_bool(r.skip),
-                        lean_bool(r.close_parent), lean_bool(r.consuming is not False), lean_ws(r.preserve_whitespace),
-                        lean_bool(re.match(r"^(ul|ol)\b", r.tag) is not None)))
+                        lean_str(r["ctx"]), lean_ref(r["node"]), lean_ref(r["mark"]), lean_opt_attrs(r["attrs"]),
+                        lean_bool(r["ignore"]), lean_bool(r["skip"]), lean_bool(r["closeParent"]), lean_bool(r["consuming"]),
+                        lean_ws(r["pw"]), lean_bool(r["listTag"])))
     styles = []
-    for r in parser._styles:
+    for r in jstyles:
         styles.append("    { style := %s.toList, context := %s.toList, mark := %s, attrs := %s, ignore := %s,\n"
                       "      clearMark := none, consuming := %s }" % (
-                          lean_str(r.style), lean_str(r.context or ""), lean_ref(r.mark, info.mid),
-                          "none" if r.get_attrs is not None else lean_opt_attrs(r.attrs), lean_bool(r.ignore),
-                          lean_bool(r.consuming is not False)))
+                          lean_str(r["style"]), lean_str(r["ctx"]), lean_ref(r["mark"]), lean_opt_attrs(r["attrs"]),
+                          lean_bool(r["ignore"]), lean_bool(r["consuming"])))
     groups = "[" + ", ".join("[" + ", ".join(lean_str(g) for g in info.schema.nodes[n].groups) + "]" for n in info.node_names) + "]"
     ws = "[" + ", ".join(lean_bool(info.schema.nodes[n].whitespace == "pre") for n in info.node_names) + "]"
     return ("{ S := s%s,\n  G := fun t => (%s : List (List String)).getD t [],\n  wsPre := fun t => (%s : List Bool).getD t false,\n"
@@ -214,7 +217,12 @@ def collect():
             spec = info.schema.spec
             fresh = Schema(copy.deepcopy(spec))
             items.append((info.name, ident, fam, spec_dump(spec), SchemaInfo(fresh, info.name).dump()))
-            PARSERS[info.name] = lean_parser(SchemaInfo(fresh, info.name), ident) if fam else None
+            PARSERS[info.name] = None
+            if fam:
+                try:
+                    PARSERS[info.name] = lean_parser(SchemaInfo(fresh, info.name), ident)
+                except Exception:  # noqa: BLE001  (reported by the C19 check: its closed corollaries will not build)
+                    pass
     return items
 
 
